@@ -1361,6 +1361,14 @@ def mprocess_history(R, S, skey, name, objs, tab, info, quiet):
         sib = [f for f in ("hss", "mprocess") if f in objs]
         mprocess_pass(R, S2, name, sib, tab, dict(info, system_names=list(S2.names)), table_forms=("hss", "mprocess"))
         mprocess_pass(R, S, name, sib[::-1], tab, info, table_forms=("hss", "mprocess"))
+    # a third system of the same size whose FIRST computational-basis request is the non-default ordering (a public
+    # query of the composite system without documented side effects), then the catalogue on it
+    S3 = R.sys(skey, [n + 20 for n in SIBLING[skey]])
+    if not getattr(S3, "_qv_column_major_asked", False):
+        S3._qv_column_major_asked = True
+        ctx.attempt(S3.c_sys.comp_basis, mode="column_major")
+    with R.step(":after-column-major-request"):
+        mprocess_pass(R, S3, name, sib, tab, dict(info, system_names=list(S3.names)), table_forms=("hss", "mprocess"))
     ctx.count("history:mprocess-cases")
 
 
